@@ -179,4 +179,18 @@ theorem Box.face_dist (h p q : K) (hq : |q| = h) (hp : |p| ≤ h) : (h - |p|) * 
 
 end
 
+section
+variable {K : Type} [Field K] [LinearOrder K] [IsStrictOrderedRing K]
+/-- uniqueness of the non-negative square root: `sqrt (k²) = k` for `k ≥ 0` -/
+theorem sqrt_mul_self (sqrt : K → K) (hsq : SqrtSpec sqrt) (k : K) (hk : 0 ≤ k) : sqrt (k * k) = k := by
+  have h1 := hsq.sq (k * k) (mul_self_nonneg k)
+  have h2 := hsq.nonneg (k * k) (mul_self_nonneg k)
+  generalize sqrt (k * k) = s at h1 h2
+  have : (s - k) * (s + k) = 0 := by linear_combination h1
+  rcases mul_eq_zero.mp this with h | h
+  · linarith
+  · have : s = 0 ∧ k = 0 := by constructor <;> linarith
+    rw [this.1, this.2]
+end
+
 end Geom
